@@ -184,3 +184,51 @@ def show_input(chars):
     for r, w in chars:
         s += chr(r) if 0x20 <= r < 0x7F else "\\u{%X}" % r
     return s
+
+
+# ---------------------------------------------------------------------------------------------------------------
+# LexConstruct / NFAProduct: the generator's own pipeline (Thompson NFA -> subsets -> partition -> picked actions)
+
+def attach_construction(rec, case, dump):
+    """Add, per mode, the NFA and the DFA lox built (harness/cmd/dump) to a TLC lexer case record.
+    NFA state numbers are made dense and 1-based; accepting states get the index of their rule in the mode
+    (the rank of the source position of their action list: rules are rendered in declaration order)."""
+    nfas, dfas = [], []
+    for mi, m in enumerate(sorted(dump["modes"], key=lambda m: m["index"])):
+        ids = {s["id"]: k + 1 for k, s in enumerate(m["nfastates"])}
+        poss = sorted({s["pos"] for s in m["nfastates"] if s["hasact"]})
+        nrules = len(rec["modes"][mi]["rules"]) if "modes" in rec else None
+        if nrules is not None and len(poss) != nrules:
+            raise Infra("%s mode %d: %d action positions in the NFA for %d rules" % (case["id"], mi, len(poss), nrules))
+        rank = {p: k + 1 for k, p in enumerate(poss)}
+        states = [{"accept": s["accept"], "ng": s["ng"], "hasact": s["hasact"], "pos": s["pos"],
+                   "rule": rank.get(s["pos"], 0), "acts": s["acts"], "actmodes": s["actmodes"],
+                   "eps": [ids[t] for t in s["eps"]], "edges": [[lo, hi, ids[t]] for lo, hi, t in s["edges"]]}
+                  for s in m["nfastates"]]
+        nfas.append({"start": ids[max(ids)], "states": states})
+        dfas.append([{"accept": s["accept"], "ng": s["ng"], "pos": s["pos"], "acts": s["actions"], "actmodes": s["actmodes"],
+                      "trans": [[lo, hi, t + 1] for lo, hi, t in s["trans"]], "nfa": sorted({ids[t] for t in s["nfa"]})}
+                     for s in m["states"]])
+    rec["nfa"], rec["dfa"] = nfas, dfas
+    return rec
+
+
+def run_construct(sc, lcases, jobs, timeout=1800, tag="lcons", mc=False):
+    """LexConstruct.tla: Det (artefact validation, one verdict per job) or all orders (Confluence)."""
+    sd = write_ldata(sc, "spec-" + tag, lcases, [], jobs)
+    r = tlc(sc, "LexConstruct", cfg="LexConstructMC.cfg" if mc else "LexConstruct.cfg", cwd=sd, timeout=timeout)
+    tlc_must(r, "LexConstruct")
+    if r.violation:
+        raise Infra("LexConstruct%s: TLC-level violation %s\n%s" % ("MC" if mc else "", r.violation, r.out[-3000:]))
+    shutil.rmtree(sd, ignore_errors=True)
+    return [l for l in r.lines if l.get("lc") == "v"], r
+
+
+def run_nfaproduct(sc, lcases, jobs, timeout=1800, tag="nprod"):
+    sd = write_ldata(sc, "spec-" + tag, lcases, [], jobs)
+    r = tlc(sc, "NFAProduct", cfg="NFAProduct.cfg", cwd=sd, timeout=timeout)
+    tlc_must(r, "NFAProduct")
+    if r.violation:
+        raise Infra("NFAProduct: TLC-level violation " + r.violation)
+    shutil.rmtree(sd, ignore_errors=True)
+    return [l for l in r.lines if "np" in l], r
